@@ -149,6 +149,8 @@ CHECKS = {
 _ADD = {
  "C01": (" + TLC trace validation (Trace_Conn clauses F_noeffect / F_window) of forged and damaged datagrams injected at random points of recorded connection histories",
          " Forged datagrams are also injected into long recorded histories of two real endpoints and judged by Trace_Conn."),
+ "C02": (" + TLC-judged byte-level mutation sweeps of the client hello and the challenge response, each followed by the honest rest of the exchange on a fresh real client + server loop",
+         " The two client-to-server datagrams are swept too: a mutated client hello followed by the honest rest of the exchange (the server reports the client only if both ends agree on key and token), a mutated challenge response (never a connect), and the genuine response replayed from another address."),
  "C03": (" + Trace_Server clause A_sealed (every server emission sealed once under the key in force) on slow-handshake executions of the real server",
          " Server emissions during delayed handshakes are judged by Trace_Server!A_sealed."),
  "C04": (" + TLC-enumerated network schedules (specs/Net.tla) executed on the real endpoints + lateness sweep across the window boundary",
